@@ -61,8 +61,6 @@ from explorerscript.ssb_converting.ssb_data_types import (
 from explorerscript.ssb_converting.ssb_decompiler import ExplorerScriptSsbDecompiler
 from explorerscript.util import open_utf8, exps_int
 
-counter = Counter()
-
 
 class OpDict(TypedDict):
     params: list[ParamDict]
@@ -91,7 +89,7 @@ def parse_pos_mark_arg(arg_str: str | int | float) -> tuple[int, int]:
     return exps_int(arg_str_arr[0]), 2
 
 
-def read_ops(ops: list[OpDict]) -> list[SsbOperation]:
+def read_ops(ops: list[OpDict], counter: Counter) -> list[SsbOperation]:
     out_ops: list[SsbOperation] = []
 
     for op in ops:
@@ -136,6 +134,8 @@ def read_routines(
     routine_infos = []
     named_coroutines = []
     routine_ops: MutableSequence[MutableSequence[SsbOperation]] = []
+    # Ops are numbered through the whole document, starting anew for every document.
+    counter = Counter()
     for r in routines:
         if "ops" not in r:
             raise ValueError("Ops for a routine not set.")
@@ -146,11 +146,11 @@ def read_routines(
                 raise ValueError("Target for a routine not set.")
             named_coroutines.append(SsbCoroutine(len(routine_infos), r["name"]))
             routine_infos.append(SsbRoutineInfo(SsbRoutineType.COROUTINE, -1))
-            routine_ops.append(read_ops(r["ops"]))
+            routine_ops.append(read_ops(r["ops"], counter))
         elif r["type"] == "GENERIC":
             named_coroutines.append(SsbCoroutine(-1, "n/a"))
             routine_infos.append(SsbRoutineInfo(SsbRoutineType.GENERIC, -1))
-            routine_ops.append(read_ops(r["ops"]))
+            routine_ops.append(read_ops(r["ops"], counter))
         elif r["type"] == "ACTOR":
             if "target_id" not in r:
                 raise ValueError("Target for a routine not set.")
@@ -162,7 +162,7 @@ def read_routines(
                 linked_to_name = str(r["target_id"])
             named_coroutines.append(SsbCoroutine(-1, "n/a"))
             routine_infos.append(SsbRoutineInfo(SsbRoutineType.ACTOR, linked_to, linked_to_name))
-            routine_ops.append(read_ops(r["ops"]))
+            routine_ops.append(read_ops(r["ops"], counter))
         elif r["type"] == "OBJECT":
             if "target_id" not in r:
                 raise ValueError("Target for a routine not set.")
@@ -174,7 +174,7 @@ def read_routines(
                 linked_to_name = str(r["target_id"])
             named_coroutines.append(SsbCoroutine(-1, "n/a"))
             routine_infos.append(SsbRoutineInfo(SsbRoutineType.OBJECT, linked_to, linked_to_name))
-            routine_ops.append(read_ops(r["ops"]))
+            routine_ops.append(read_ops(r["ops"], counter))
         elif r["type"] == "PERFORMER":
             if "target_id" not in r:
                 raise ValueError("Target for a routine not set.")
@@ -186,7 +186,7 @@ def read_routines(
                 linked_to_name = str(r["target_id"])
             named_coroutines.append(SsbCoroutine(-1, "n/a"))
             routine_infos.append(SsbRoutineInfo(SsbRoutineType.PERFORMER, linked_to, linked_to_name))
-            routine_ops.append(read_ops(r["ops"]))
+            routine_ops.append(read_ops(r["ops"], counter))
         else:
             raise ValueError(f"Invalid type for a routine: {r['type']}.")
 
